@@ -305,6 +305,7 @@ impl FileModel {
 
 #[derive(Clone, Debug)]
 pub struct GenCfg {
+    pub thorough: bool,
     /// stored-byte corruption: number of lines that get one 0xFF byte (strict configuration only)
     pub corrupt_lines: usize,
     pub rows: usize,
@@ -357,9 +358,16 @@ fn gen_desc(rng: &mut Rng, cfg: &GenCfg) -> String {
         5 => ((b'!' + rng.below(94) as u8) as char).to_string(),
         6 => format!("{} or {}", rng.pick(WORDS), NAMES[rng.usize_below(7)]),
         7 => {
-            // longer than BufReader's 8 KiB buffer now and then: several refills inside one line
-            let target = if cfg.long_lines { 7000 + rng.usize_below(14000) } else { 200 + rng.usize_below(800) };
-            let mut s = String::new();
+            // Line-length thresholds in real code are powers of two (BufReader's 8 KiB, a 64 KiB
+            // cap, a 1 MiB limit): aim at 2^k, and let gen_good trim the line to land exactly on
+            // 2^k - 1, 2^k, 2^k + 1 half of the time.
+            let target = if cfg.long_lines {
+                let k = 10 + rng.usize_below(if cfg.thorough { 11 } else { 8 });
+                (1usize << k) - 48 + rng.usize_below(96)
+            } else {
+                200 + rng.usize_below(800)
+            };
+            let mut s = String::with_capacity(target + 16);
             while s.len() < target {
                 s.push_str(*rng.pick(WORDS));
                 s.push(if rng.chance(1, 9) { ',' } else { ' ' });
@@ -405,7 +413,28 @@ pub fn gen_good(rng: &mut Rng, cfg: &GenCfg) -> Good {
     } else {
         None
     };
-    Good { lo, hi, width, p, q, desc: gen_desc(rng, cfg) }
+    let mut g = Good { lo, hi, width, p, q, desc: gen_desc(rng, cfg) };
+    // land a long line exactly on a power-of-two boundary (text + LF = 2^k - 1, 2^k or 2^k + 1)
+    let len = g.text().len() + 1;
+    if len > 900 && rng.chance(1, 2) {
+        let k = (usize::BITS - 1 - len.leading_zeros()) as usize; // floor(log2(len))
+        let base = if len - (1 << k) < (1 << k) / 2 { 1usize << k } else { 1usize << (k + 1) };
+        let want = base + rng.usize_below(3) - 1;
+        if want > len {
+            g.desc.push_str(&"x".repeat(want - len));
+        } else {
+            let mut cut = g.desc.len().saturating_sub(len - want).max(1);
+            while !g.desc.is_char_boundary(cut) {
+                cut -= 1;
+            }
+            g.desc.truncate(cut.max(1));
+            let now = g.text().len() + 1;
+            if now < want {
+                g.desc.push_str(&"x".repeat(want - now));
+            }
+        }
+    }
+    g
 }
 
 pub const BAD_CLASSES: [&str; 14] = [
@@ -472,6 +501,7 @@ pub fn gen_cfg(rng: &mut Rng, thorough: bool) -> GenCfg {
         desc_shapes.push(rng.below(7) as u8);
     }
     GenCfg {
+        thorough,
         corrupt_lines: if rng.chance(1, 6) { 1 + rng.usize_below(2) } else { 0 },
         rows,
         bad_share: *rng.pick(&[0u64, 0, 10, 10, 30, 50, 100]),
